@@ -5,8 +5,8 @@ cd ${EVAL_ROOT:-}/repo || exit 9
 if ! git diff --quiet; then echo "/repo has uncommitted changes"; exit 9; fi
 git apply "$PATCH" || { echo "patch does not apply"; exit 9; }
 cd ${EVAL_ROOT:-}/verif
-timeout 3000 ./check $P "$@" > /var/tmp/evalmut.$P.$$.log 2>&1
+timeout 3000 ./check $P "$@" > /var/tmp/evlog/evalmut.$P.$$.log 2>&1
 rc=$?
 git -C ${EVAL_ROOT:-}/repo checkout -- .
-echo "rc=$rc $(grep -c '^VIOLATION' /var/tmp/evalmut.$P.$$.log) violation lines; $(grep '^VIOLATION\|^INCONCLUSIVE\|^OK' /var/tmp/evalmut.$P.$$.log | head -3 | cut -c1-220)"
+echo "rc=$rc $(grep -c '^VIOLATION' /var/tmp/evlog/evalmut.$P.$$.log) violation lines; $(grep '^VIOLATION\|^INCONCLUSIVE\|^OK' /var/tmp/evlog/evalmut.$P.$$.log | head -3 | cut -c1-220)"
 exit $rc
